@@ -50,7 +50,9 @@ var c19Perms = map[string]string{ // permission text -> JSON
 	"none":   `{}`,
 }
 
-const c19Probe = `{ movies { title } pet { name } me { name } }`
+// the probe crosses service boundaries through array lookups (service B) and single-entity lookups (services A and C):
+// the claim headers are due on every one of those calls
+const c19Probe = `{ movies { title rating lead { name nick } } pet { name ... on Cat { lives } ... on Dog { bark } } me { name nick films { title } } }`
 
 // which permission set was applied, judged from the probe's "access disallowed" errors
 func appliedPerms(resp *gwResponse) string {
